@@ -394,6 +394,38 @@ class Repo:
             return False
         return fi.name.startswith('_') or fi.key not in FUNCTIONS
 
+    def helper_closure(self, fi: FuncInfo) -> List[FuncInfo]:
+        """``fi`` and the helpers (see is_helper) it reaches through ``self.m()`` / ``cls.m()`` calls, calls of module
+        functions, and functions named in class-level tables of its class -- the code a rule about ``fi`` has to look at
+        when statements were moved out of it."""
+        out: List[FuncInfo] = [fi]
+        seen = {fi.key}
+        work = [fi]
+        while work:
+            f = work.pop()
+            cands: List[FuncInfo] = []
+            for n in ast.walk(f.node):
+                if isinstance(n, ast.Call):
+                    fn = n.func
+                    if isinstance(fn, ast.Attribute) and isinstance(fn.value, ast.Name) and fn.value.id in ('self', 'cls') and f.cls:
+                        m = f.cls.find_method(fn.attr)
+                        if m is not None:
+                            cands.append(m)
+                    elif isinstance(fn, ast.Name) and fn.id in f.module.functions:
+                        cands.append(f.module.functions[fn.id])
+                if isinstance(n, ast.Attribute) and isinstance(n.value, ast.Name) and n.value.id in ('self', 'cls') and f.cls:
+                    hit = f.cls.find_attr(n.attr)
+                    if hit is not None and isinstance(hit[1], ast.Dict):
+                        for v in hit[1].values:
+                            if isinstance(v, ast.Name) and hit[0].find_method(v.id) is not None:
+                                cands.append(hit[0].find_method(v.id))
+            for m in cands:
+                if m.key not in seen and self.is_helper(m):
+                    seen.add(m.key)
+                    out.append(m)
+                    work.append(m)
+        return out
+
     def module_const(self, module: str, name: str) -> Any:
         m = self.module(module)
         return self.fold(ast.Name(id=name, ctx=ast.Load()), m)
